@@ -28,7 +28,7 @@ def plan(tier):
                 'transport rewrites responses into every failure reason with messages of length 0-200 or no message, '
                 'non-success statuses, and truncations at every byte class; every emitted request is fed to the '
                 'server decoder; a cell is (method, version, response class, outcome)',
-        'min_monitor': {'client_calls': 1500, 'results_compared_with_wire': 300, 'failures_compared': 500, 'request_arguments_checked': 400, 'batch_results_compared': 300,
+        'min_monitor': {'inconsistent_responses_checked': 300, 'client_calls': 1500, 'results_compared_with_wire': 300, 'failures_compared': 500, 'request_arguments_checked': 400, 'batch_results_compared': 300,
                         'truncations_checked': 200, 'requests_checked_decodable': 1000},
         'assumptions': ['a legal failure response carries status, reason and an optional message',
                         'responses with a wrong operation echo or a wrong item count are not legal and are not generated'],
